@@ -2,6 +2,8 @@ import Cinco.Proofs.Cfg
 import Cinco.Config.Inv
 import Cinco.Generated.Overrides
 import Cinco.Props.C06
+import Cinco.Proofs.Inv
+import Cinco.Proofs.Prims
 /-
   C01 — every value a configuration holds satisfies its field's declared constraints.
   (The invariant over whole histories is in Cinco/Proofs/Inv.lean; this file holds the property statements.)
@@ -123,5 +125,57 @@ def dictInserting : List String := ["__init__", "__setitem__", "update", "setdef
 theorem proxies_cover_inserting_entry_points :
     listInserting.all (fun m => Generated.listProxyMethods.contains m) = true ∧
     dictInserting.all (fun m => Generated.dictProxyMethods.contains m) = true := by decide
+
+/-! ### The invariant over whole histories -/
+
+/-- the public mutating operations on a configuration, as the harness drives them -/
+inductive Op where
+  | setItem (dotted : List Char) (v : Val)                 -- assignment by dotted path / chained attributes (values and maps)
+  | loadTree (entries : List (Val × Val)) (validate : Bool)
+  | reset (dotted : List Char)
+
+def step (W : World) (fuel : Nat) (s : Schema) (cn : Cfg × Nat) : Op → Cfg × Nat
+  | .setItem dotted v => let o := setItem W fuel s "" cn.1 dotted (.val v) cn.2; (o.cfg, o.next)
+  | .loadTree es val => let o := loadTree W fuel s "" cn.1 es val cn.2; (o.cfg, o.next)
+  | .reset dotted => let o := resetValue W fuel s cn.1 dotted cn.2; (o.cfg, o.next)
+
+def run (W : World) (fuel : Nat) (s : Schema) (cn : Cfg × Nat) (ops : List Op) : Cfg × Nat := ops.foldl (step W fuel s) cn
+
+/-- **One operation preserves the invariant**, whether it is accepted or rejected (the state after a rejection is included). -/
+theorem inv_step (W : World) (d fuel : Nat) (s : Schema) (cn : Cfg × Nat) (op : Op)
+    (hdv : DefaultsValid W (d + 1) s) (hnd : s.keysNodup = true) (hpl : s.containerDefaultsPlain = true)
+    (hi : Inv W (d + 1) s cn.1) : Inv W (d + 1) s (step W fuel s cn op).1 := by
+  cases op with
+  | setItem dotted v => exact inv_setItem W (d + 1) fuel s "" cn.1 dotted v cn.2 hdv hnd hpl hi
+  | loadTree es val => exact inv_loadTree W d fuel s "" cn.1 es val cn.2 hdv hnd hpl hi
+  | reset dotted => exact inv_resetValue W (d + 1) fuel s cn.1 dotted cn.2 hdv hnd hpl hi
+
+/-- **Every reachable state satisfies the invariant**: given a schema whose declared defaults are valid (and whose keys are
+    distinct, container defaults without custom validators), after construction and after every finite sequence of assignments,
+    tree loads and resets, every value held at any depth — list items included — is unset or a result of its own field's
+    validation. (Induction over the history.) -/
+theorem inv_run (W : World) (d fuel : Nat) (s : Schema) (n : Nat) (c0 : Cfg) (n0 : Nat)
+    (hdv : DefaultsValid W (d + 1) s) (hnd : s.keysNodup = true) (hpl : s.containerDefaultsPlain = true)
+    (hb : build W "" false none s n = .ok (c0, n0)) :
+    ∀ ops, Inv W (d + 1) s (run W fuel s (c0, n0) ops).1 := by
+  have h0 : Inv W (d + 1) s c0 := inv_build W (d + 1) "" false none s n c0 n0 hdv hnd hpl hb
+  intro ops
+  suffices h : ∀ (ops : List Op) (cn : Cfg × Nat), Inv W (d + 1) s cn.1 → Inv W (d + 1) s (run W fuel s cn ops).1 from h ops (c0, n0) h0
+  intro ops
+  induction ops with
+  | nil => intro cn h; exact h
+  | cons op rest ih =>
+    intro cn h
+    simp only [run, List.foldl_cons]
+    exact ih _ (inv_step W d fuel s cn op hdv hnd hpl h)
+
+/-- **Held values satisfy their constraints**: for every declaration covered by `IdemOk` (C05), a held value is unset or is
+    accepted unchanged by its own field — i.e. passes every check the validator makes (type, bounds, lengths, pattern, choices,
+    address / host / URL syntax, item and key/value constraints). -/
+theorem held_satisfies (W : World) (hE : EnvOk W.fe.toEnv) (f : FieldSpec) (v : Val) (hf : IdemOk f = true) (h : Held W f v) :
+    v = .none ∨ validate W.fe.toEnv f v = .ok v := by
+  rcases h with h | ⟨u, hu⟩
+  · exact Or.inl h
+  · exact Or.inr (Field.validate_idem prims W.fe.toEnv hE f u v hf hu)
 
 end Cinco.C01
